@@ -1364,6 +1364,19 @@ func (c *Conn) writeResponse(code int, enhCode EnhancedCode, text ...string) {
 	// transform each single line with \n, into separate lines
 	text = strings.Split(strings.Join(text, "\n"), "\n")
 
+	// Reply text often echoes what the client sent (unknown command, HELO
+	// name, addresses): control characters in it would break the reply
+	// line, RFC 5321 only allows HT and printable characters.
+	for i := range text {
+		line := []byte(text[i])
+		for j, ch := range line {
+			if (ch < ' ' && ch != '\t') || ch == 0x7f {
+				line[j] = '?'
+			}
+		}
+		text[i] = string(line)
+	}
+
 	lastLineIndex := len(text) - 1
 	for i := 0; i < lastLineIndex; i++ {
 		c.text.PrintfLine("%d-%v", code, text[i])
